@@ -446,7 +446,7 @@ def runOp (st : MState) (op : Json) : E (MState × Json) := do
   | [.str "d.get", chain, .str getter, .str conv] => do
     let (data, p) ← resolveChain st chain
     let c := convOf conv
-    let g : Getter := match getter with | "find" | "itc" | "itx" => .find | "get_match" => .getMatch | _ => .get
+    let g : Getter := match getter with | "find" | "find_matches" | "itc" | "itx" => .find | "get_match" => .getMatch | _ => .get
     match data with
     | .error e => return finishErr st (errJ e)
     | .ok d =>
